@@ -135,8 +135,10 @@ def encode_contrasts(  # pylint: disable=dangerous-default-value  # always repla
     # Prepare arguments
     _spec = cast("ModelSpec", _spec)
     output = output or _spec.output or "pandas"
+    # (levels recorded when the spec was trained stay in force, whatever the
+    # `levels` argument evaluates to on later data)
     levels = (
-        levels if levels is not None else _state.get("categories")
+        _state["categories"] if "categories" in _state else levels
     )  # TODO: Is this too early to provide useful feedback to users?
     if isinstance(data, FactorValues):  # wrapped numpy arrays are problematic
         data = data.__wrapped__
